@@ -1009,6 +1009,11 @@ func unop(i *interpreter, instr *ssa.UnOp, x value) value {
 			if p == nil {
 				panic(runtimeError("invalid memory address or nil pointer dereference"))
 			}
+			if i.ps != nil && len(i.ps.released) > 0 {
+				if what, ok := i.ps.released[p]; ok {
+					i.noteSharedWrite("use after release (load): " + what)
+				}
+			}
 			return load(mustDeref(instr.X.Type()), p)
 		case symPtr:
 			return i.loadSym(p)
